@@ -20,7 +20,7 @@ for p in mutants/revert-*.patch mutants/hand-*.patch; do
     revert-3a3b978|revert-c805a25|revert-ccf727f|revert-387d087|hand-readterm*|hand-peek*|hand-unreadrune*) id=C19;;
     revert-c16aa82) id=C11;; revert-18138da) id=C04;; revert-de9d3a4) id=C16;;
     revert-70dbb45|revert-4aa4e0c|revert-5ac6759|revert-5626df1) id=C10;;
-    revert-d2f0951|revert-retract-trio) id=C09;;
+    revert-d2f0951|revert-retract-trio|revert-27d5af3) id=C09;;
     revert-994ff2c|revert-e382df4|revert-d242e4d|revert-630168d|revert-0d96cc5|revert-0c21a90|revert-aac20ef|revert-ea61ebf) id=C06;;
     revert-5a68aac) id=C17;; revert-c7328a6) id=C03;; revert-aea4ea6) id=C12;; revert-3a4e688) id=C15;;
     revert-1838529) id=C13;; revert-eb700ef) id=C20;; revert-5ba2f5f) id=C18;;
